@@ -118,6 +118,22 @@ pub fn val_cmp(a: &Val, b: &Val) -> Option<Ordering> {
     }
 }
 
+/// lexicographic order on (nested) lists of comparable scalars; None if some pair is incomparable
+pub fn val_cmp_lex(a: &Val, b: &Val) -> Option<Ordering> {
+    match (a, b) {
+        (Val::List(x), Val::List(y)) => {
+            for (p, q) in x.iter().zip(y.iter()) {
+                match val_cmp_lex(p, q)? {
+                    Ordering::Equal => {}
+                    o => return Some(o),
+                }
+            }
+            Some(x.len().cmp(&y.len()))
+        }
+        _ => val_cmp(a, b),
+    }
+}
+
 #[derive(Clone, Copy, Debug, PartialEq, Eq, PartialOrd, Ord, Hash, Serialize, Deserialize)]
 pub enum Op {
     IsNull,
@@ -301,7 +317,9 @@ pub fn op_def(op: Op, left: &Val, right: Option<&Val>) -> Option<bool> {
                 false
             } else {
                 let ord = match (left, right) {
-                    (Val::List(_), Val::List(_)) => return None,
+                    // lists compare lexicographically; undefined (None) when some element pair is
+                    // not comparable (nulls inside, kind mismatch)
+                    (Val::List(_), Val::List(_)) => val_cmp_lex(left, right)?,
                     _ => val_cmp(left, right)?,
                 };
                 match pos {
